@@ -205,6 +205,9 @@ func sameValue(a, b ssa.Value, depth int) bool {
 func lenLowerBound(guards []Atom, s ssa.Value) int64 {
 	var L int64
 	isLen := func(v ssa.Value) bool {
+		if ms, ok := s.(*ssa.MakeSlice); ok && sameValue(v, ms.Len, 0) {
+			return true
+		}
 		l := lenOf(v)
 		return l != nil && (l == s || sameValue(l, s, 0) || sameLoad(l, s))
 	}
@@ -238,6 +241,9 @@ func lenLowerBound(guards []Atom, s ssa.Value) int64 {
 func provesLE(fn *ssa.Function, at *ssa.BasicBlock, guards []Atom, e ssa.Value, s ssa.Value, strict bool) bool {
 	e = stripConv(e)
 	isLen := func(v ssa.Value) bool {
+		if ms, ok := s.(*ssa.MakeSlice); ok && sameValue(v, ms.Len, 0) {
+			return true
+		}
 		l := lenOf(v)
 		return l != nil && (l == s || sameValue(l, s, 0) || sameLoad(l, s))
 	}
@@ -253,7 +259,13 @@ func provesLE(fn *ssa.Function, at *ssa.BasicBlock, guards []Atom, e ssa.Value, 
 	}
 	// min(len(s), x)
 	if c, ok := e.(*ssa.Call); ok {
+		isMin := false
 		if b, ok := c.Call.Value.(*ssa.Builtin); ok && b.Name() == "min" {
+			isMin = true
+		} else if f := c.Call.StaticCallee(); f != nil && isMinFunc(f) {
+			isMin = true
+		}
+		if isMin {
 			for _, a := range c.Call.Args {
 				if isLen(a) && !strict {
 					return true
@@ -368,6 +380,16 @@ func fromParamSlice(s ssa.Value, depth int) bool {
 		return false
 	}
 	switch x := s.(type) {
+	case *ssa.MakeSlice:
+		// a buffer whose length is an input-dependent value behaves like a caller-sized slice
+		if _, ok := constInt(x.Len); !ok {
+			for _, r := range rootsOf(x.Len) {
+				if r.Kind == "param" {
+					return true
+				}
+			}
+		}
+		return false
 	case *ssa.Parameter:
 		return isSliceType(x.Type())
 	case *ssa.Phi:
@@ -468,4 +490,39 @@ func unguardedAccesses(p *Program, fn *ssa.Function) (sites int, hits []Finding)
 		}
 	}
 	return
+}
+
+// isMinFunc: a two-argument integer function whose body is `if a < b { return a }; return b`
+// (or the symmetric forms): every return value is one of the parameters and the parameter
+// returned on each edge is the smaller one.
+func isMinFunc(f *ssa.Function) bool {
+	if len(f.Params) != 2 || f.Blocks == nil || len(f.Blocks) != 3 {
+		return false
+	}
+	iff, ok := f.Blocks[0].Instrs[len(f.Blocks[0].Instrs)-1].(*ssa.If)
+	if !ok {
+		return false
+	}
+	a := atomOf(iff.Cond)
+	if a.Kind != "cmp" {
+		return false
+	}
+	retOf := func(b *ssa.BasicBlock) ssa.Value {
+		if r, ok := b.Instrs[len(b.Instrs)-1].(*ssa.Return); ok && len(r.Results) == 1 {
+			return r.Results[0]
+		}
+		return nil
+	}
+	t, e := retOf(f.Blocks[0].Succs[0]), retOf(f.Blocks[0].Succs[1])
+	if t == nil || e == nil {
+		return false
+	}
+	x, y := a.X, a.Y
+	switch a.Op {
+	case token.LSS, token.LEQ:
+		return t == x && e == y
+	case token.GTR, token.GEQ:
+		return t == y && e == x
+	}
+	return false
 }
